@@ -97,6 +97,20 @@ structure SeqEnv where
   parseDatabase : Bytes → List DbInfo
   parseClass : Bytes → List ClassInfo
 
+/-- the loop `for filenode, info := range tables { … }` of FindSequences over the relations in list order -/
+def findSeqLoop (env : SeqEnv) (basePath : String) : List ClassInfo → M (List SequenceData)
+  | [] => pure []
+  | info :: rest => do
+    if info.kind != [83] then findSeqLoop env basePath rest            -- relkind "S"
+    else match env.fs (basePath ++ "/" ++ toString info.filenode) with
+      | none => findSeqLoop env basePath rest
+      | some seqData =>
+        match ← parseSequenceFile seqData with
+        | none => findSeqLoop env basePath rest
+        | some seq =>
+          let r ← findSeqLoop env basePath rest
+          pure ({ seq with name := info.name, oid := info.oid, filenode := info.filenode } :: r)
+
 def findSequences (env : SeqEnv) (dataDir : String) (dbName : Bytes) : M (Option (List SequenceData)) := do
   match env.fs (dataDir ++ "/global/1262") with
   | none => return none
@@ -107,39 +121,25 @@ def findSequences (env : SeqEnv) (dataDir : String) (dbName : Bytes) : M (Option
     let basePath := dataDir ++ "/base/" ++ toString dbOID
     match env.fs (basePath ++ "/1259") with
     | none => return none
-    | some classData =>
-      let tables := env.parseClass classData
-      let rec go : List ClassInfo → M (List SequenceData)
-        | [] => pure []
-        | info :: rest => do
-          if info.kind != [83] then go rest            -- "S"
-          else match env.fs (basePath ++ "/" ++ toString info.filenode) with
-            | none => go rest
-            | some seqData =>
-              match ← parseSequenceFile seqData with
-              | none => go rest
-              | some seq =>
-                let r ← go rest
-                pure ({ seq with name := info.name, oid := info.oid, filenode := info.filenode } :: r)
-      return some (← go tables)
+    | some classData => return some (← findSeqLoop env basePath (env.parseClass classData))
 
 def hasPrefix (s p : Bytes) : Bool := s.take p.length == p
 
-/-- ScanAllSequences: map from database name to its sequences (only non-empty lists); association list -/
+/-- the loop of ScanAllSequences; `results[db.Name] = seqs` — a later database with the same name overwrites -/
+def scanLoop (env : SeqEnv) (dataDir : String) : List DbInfo → M (List (Bytes × List SequenceData))
+  | [] => pure []
+  | db :: rest => do
+    if hasPrefix db.name "template".toUTF8.toList then scanLoop env dataDir rest
+    else match ← findSequences env dataDir db.name with
+      | none => scanLoop env dataDir rest
+      | some seqs =>
+        let r ← scanLoop env dataDir rest
+        pure (if seqs.isEmpty then r else if r.any (·.1 == db.name) then r else (db.name, seqs) :: r)
+
+/-- ScanAllSequences: map from database name to its sequences (only non-empty lists), as an association list -/
 def scanAllSequences (env : SeqEnv) (dataDir : String) : M (Option (List (Bytes × List SequenceData))) := do
   match env.fs (dataDir ++ "/global/1262") with
   | none => return none
-  | some dbData =>
-    let rec go : List DbInfo → M (List (Bytes × List SequenceData))
-      | [] => pure []
-      | db :: rest => do
-        if hasPrefix db.name "template".toUTF8.toList then go rest
-        else match ← findSequences env dataDir db.name with
-          | none => go rest
-          | some seqs =>
-            let r ← go rest
-            -- `results[db.Name] = seqs`: a later database with the same name overwrites
-            pure (if seqs.isEmpty then r else if r.any (·.1 == db.name) then r else (db.name, seqs) :: r)
-    return some (← go (env.parseDatabase dbData))
+  | some dbData => return some (← scanLoop env dataDir (env.parseDatabase dbData))
 
 end PgVerif.Model
